@@ -4,9 +4,9 @@ CONSTANTS
   C0 = 2
   Sp0 = 4
   MaxBody = 3
-  Widths = {2, 3}
+  Widths = {3}
   Ks = {1, 3}
-  BNs = {FALSE, TRUE}
+  BNs = {FALSE}
   Biases = {TRUE}
   AllowDw = TRUE
   AllowAdd = TRUE
